@@ -5,7 +5,7 @@ preemption bound is executed; at the end, and after a reopen, each table must ho
 import json, os
 from lib import core, runner, e4util
 
-TRANSPARENT = ["txn.start", "run.begin", "run.planned", "scan.next", "txn.commit", "commit.appended", "vacuum."]
+TRANSPARENT = ["txn.start", "run.begin", "run.planned", "scan.next", "txn.commit", "commit.appended", "commit.built", "vacuum."]
 
 
 def wl(name, actors, passes=1, setup=None, expect=None, opts=None, init=None):
